@@ -139,6 +139,8 @@ class Model:
                 if d.get('qset'):
                     for lf in leaves(part):
                         lf.quality = 1 + (lf._vseq % d['qset'])
+                if d.get('foff'):
+                    m.offset_next_cycle_time(d['foff'] * TICK)
                 tr.occ('prod', d['id'], part, m)
             o.add_finish_processing_callback(on_finish)
             for i in (1, 2, 3):
